@@ -159,7 +159,7 @@ fn build_add(lhs: &AstNode, rhs: &AstNode) -> Result<Evaluator> {
       }
       Value::DaysAndTimeDuration(lh) => {
         if let Value::DaysAndTimeDuration(rh) = rhv {
-          Value::DaysAndTimeDuration(lh + rh)
+          dt_duration_or_null(lh + rh)
         } else {
           value_null!("addition err 3")
         }
@@ -1628,7 +1628,7 @@ fn build_sub(lhs: &AstNode, rhs: &AstNode) -> Result<Evaluator> {
       }
       Value::DaysAndTimeDuration(ref lh) => {
         if let Value::DaysAndTimeDuration(ref rh) = rhv {
-          return Value::DaysAndTimeDuration(lh.clone() - rh.clone());
+          return dt_duration_or_null(lh.clone() - rh.clone());
         }
       }
       Value::YearsAndMonthsDuration(ref lh) => {
@@ -1641,6 +1641,21 @@ fn build_sub(lhs: &AstNode, rhs: &AstNode) -> Result<Evaluator> {
     //TODO make a macro for incompatible types
     value_null!("[subtraction] incompatible types: {} - {}", lhv as Value, rhv as Value)
   }))
+}
+
+lazy_static! {
+  /// The longest days and time duration: like in a literal, the number of days has to fit into 64 bits.
+  static ref DT_DURATION_MAX: FeelDaysAndTimeDuration = FeelDaysAndTimeDuration::try_from("P18446744073709551615DT23H59M59.999999999S").unwrap();
+}
+
+/// Returns the calculated days and time duration, or null when it is out of range. The range is the one of the literals,
+/// what keeps the results far away from the limits of the underlying number of nanoseconds, so the calculations never overflow.
+fn dt_duration_or_null(duration: FeelDaysAndTimeDuration) -> Value {
+  if duration.abs() <= *DT_DURATION_MAX {
+    Value::DaysAndTimeDuration(duration)
+  } else {
+    value_null!("days and time duration is out of range")
+  }
 }
 
 /// Returns years and months duration having the calculated number of months, or null when the calculation
